@@ -24,7 +24,7 @@ from harness import core, learners as L, xlearner as X
 
 MODULES = ["AdaptiveProofs.Props.C13"]
 KINDS = ["l1d", "l1d_curv", "l1d_vec", "l1d_tri", "l1d_uni", "lnd2", "lnd3", "l2d", "avg", "avg1d", "seq", "integ",
-         "bal:l1d", "bal:seq", "bal:avg", "bal:lnd2", "ds:l1d", "ds:seq", "ds:avg", "ds:lnd2"]
+         "bal:l1d", "bal:seq", "bal:avg", "bal:lnd2", "bal:npoints:l1d", "bal:cycle:seq", "bal:loss:l1d_vec", "ds:l1d_vec", "ds:l1d", "ds:seq", "ds:avg", "ds:lnd2"]
 CHANNELS = ["save_gz", "save_plain", "pickle", "cloudpickle", "copy_from"]
 
 
@@ -234,7 +234,7 @@ def run(ctx):
     return core.conclude(
         ctx, proof, [], failures,
         rule="histories (out-of-order delivery, unsuggested points, pending marks, discards, scalar and vector outputs) ending with no "
-             "pending points, for 19 learner kinds incl. wrappers, restored through save/load with and without gzip, pickle, "
+             "pending points, for 24 learner kinds incl. wrappers, restored through save/load with and without gzip, pickle, "
              "cloudpickle and copy_from; Learner1D with _recompute_losses_factor = 1 as the property says; "
              "non-trivial = (kind, seed) history restored through at least one channel",
         samples=[list(a[:3]) for a in args[:3]],
